@@ -174,6 +174,35 @@ pub fn run_base<T: Serialize + Deserialize + WithSchema + Packed + Canon>(op: &s
             }
             format!("{} {} {} {}", bytes.len(), hex(&bytes), orig, classes)
         }
+        // ty_oldfile <format 0|1|2> <compressed 0|1> <version> <validx> : a file as an EARLIER build of the library wrote it:
+        // header with that library format version, the type's schema serialized in that format, the payload; optionally the
+        // schema and payload bzip2-compressed (flag 1). Output: the file as hex.
+        "ty_oldfile" => {
+            let (fmt, comp, version, idx) = (toks[0].parse::<u16>().unwrap(), toks[1] == "1", toks[2].parse::<u32>().unwrap(), toks[3].parse::<usize>().unwrap());
+            let vals = values();
+            let mut body = match ser_schema(fmt as u32, &get_schema::<T>(version)) {
+                Ok(b) => b,
+                Err(e) => return format!("ERR schema {}", err_class(&e)),
+            };
+            let mut payload = Vec::new();
+            if let Err(e) = Serializer::bare_serialize(&mut payload, version, &vals[idx]) {
+                return format!("ERR payload {}", err_class(&e));
+            }
+            body.extend_from_slice(&payload);
+            let mut file = b"savefile\0".to_vec();
+            file.extend_from_slice(&fmt.to_le_bytes());
+            file.extend_from_slice(&version.to_le_bytes());
+            file.push(comp as u8);
+            if comp {
+                use std::io::Write;
+                let mut enc = bzip2::write::BzEncoder::new(Vec::new(), bzip2::Compression::default());
+                enc.write_all(&body).unwrap();
+                file.extend_from_slice(&enc.finish().unwrap());
+            } else {
+                file.extend_from_slice(&body);
+            }
+            format!("OK {}", hex(&file))
+        }
         "ty_canon" => {
             let idx = toks[0].parse::<usize>().unwrap();
             values()[idx].canon_string()
